@@ -24,6 +24,7 @@ def run(facts, tier):
         ("reader dead-reads", lambda fa: [o for o in dead_reads.obligations(fa) if "var_opt" in o["key"]], 10, "every field the VarOpt readers take from the image reaches the restored sketch on every accepting path"),
         ("serializer twins", lambda fa: [o for o in a4_twin.obligations(fa, set(json.load(open(os.path.join(VERIF, "spec", "twin_armed.json")))["armed"])) if "var_opt" in o["key"]], 2, "stream and byte writers of the VarOpt sketch and union emit the same fields under the same conditions (the two images of one state are one format)"),
         ("tautologies", lambda fa: generic_lints.tautologies(fa, ('sampling/',)), 2, "no comparison / assignment / min-max with two identical operands"),
+        ("random decisions", S.varopt_decisions, 1, "the random decisions of the VarOpt delete-slot choice (keep the single M candidate with probability (num_cands - 1) * w_M / wt_cands) equal the reviewed closed forms"),
         ("hazards", lambda fa: hazard_lints.hazards(fa, ('sampling/',)), 2, "no 64-bit value silently narrowed at a call of a library function, no numeric_limits<floating>::min() as a lowest value, no random engine constructed inside a loop, no read of a moved-from parameter, no unguarded unsigned `x - c` loop bound (reviewed instances in spec/hazards.json)"),
         ("duplicate operands", lambda fa: generic_lints.duplicate_conjuncts(fa, ('sampling/',)), 2, "no logical chain tests the same operand twice"),
         ("vacuous loops", lambda fa: generic_lints.vacuous_loops(fa, ('sampling/',)), 2, "no counted loop whose bound was just reset to its start value"),
